@@ -229,3 +229,41 @@ func TestStressJoinV1(t *testing.T) {
 		}
 	}
 }
+
+// The pure functions (dividers, handler-quantity helpers) called from many goroutines at once, each on its own arguments: no shared
+// state may exist behind them (C20), and every concurrent result equals the sequential one.
+func TestStressPureV1(t *testing.T) {
+	for round := 0; round < stressRounds(); round++ {
+		priorities := []uint{70, 20, 10, 5, 1}
+		seqFair := priority.FairDivider(priorities, 1000+uint(round), nil)
+		seqRate := priority.RateDivider(priorities, 1000+uint(round), nil)
+		seqNonFatal := priority.IsNonFatalConfig(priorities, priority.RateDivider, 200)
+		seqMin := priority.PickUpMinNonFatalQuantity(priorities, priority.RateDivider, 300)
+		var wg sync.WaitGroup
+		for g := 0; g < 16; g++ {
+			wg.Add(1)
+			go func(g int) {
+				defer wg.Done()
+				for rep := 0; rep < 200; rep++ {
+					f := priority.FairDivider(priorities, 1000+uint(round), nil)
+					r := priority.RateDivider(priorities, 1000+uint(round), map[uint]uint{})
+					for _, p := range priorities {
+						if f[p] != seqFair[p] || r[p] != seqRate[p] {
+							t.Errorf("concurrent divider result differs from the sequential one")
+							return
+						}
+					}
+					if g%4 == 0 && rep%50 == 0 {
+						if priority.IsNonFatalConfig(priorities, priority.RateDivider, 200) != seqNonFatal ||
+							priority.PickUpMinNonFatalQuantity(priorities, priority.RateDivider, 300) != seqMin {
+							t.Errorf("concurrent helper result differs from the sequential one")
+							return
+						}
+						_ = priority.IsSuitableConfig(priorities, priority.FairDivider, 200, 10)
+					}
+				}
+			}(g)
+		}
+		wg.Wait()
+	}
+}
